@@ -208,7 +208,7 @@ def run(P, R, tier):
     R.assume('S1/S2: Arrow buffer layout, x/y interleaving')
     kernel_rules(P, R)
     map_kernels(P, R)
-    common.no_fastmath(P, R, 'C14.a', ['spatialpandas.geometry._algorithms.measures', 'spatialpandas.geometry.baselist'])
+    common.no_fastmath(P, R, 'C14.h', ['spatialpandas.geometry._algorithms.measures', 'spatialpandas.geometry.baselist'])
     common.nan_buffers(P, R, 'C14.g', ['spatialpandas.geometry.' + m for m in ('point', 'multipoint', 'line', 'multiline', 'ring', 'polygon', 'multipolygon', '_algorithms.measures')], floor=4)
     I = Interp(P)
     seen = set()
